@@ -304,12 +304,47 @@ def _first_error(text):
     return ""
 
 
+def resolve_unwindset(job, td):
+    """Per-function recursion bounds (@leftrec rules): the goto identifiers are read from the harness' goto binary
+    after a codegen-only pass.  job.meta["unwindset"] = [(v0-mangled name fragment, e.g. "7parse_E", bound)]."""
+    wanted = job.meta.get("unwindset")
+    if not wanted:
+        return True
+    log = os.path.join(WORK, "logs", job.jid + ".codegen.log")
+    cmd = ["cargo", "kani", "-Z", "stubbing", "-Z", "unstable-options", "--target-dir", td,
+           "--harness", job.harness, "--exact", "--only-codegen"]
+    rc, wall, peak = run_cmd_limited(cmd, job.crate, log, 600, job.mem_gb)
+    outs = []
+    for root, dirs, files in os.walk(td):
+        for f in files:
+            if f.endswith(job.harness + ".out"):
+                outs.append(os.path.join(root, f))
+    if not outs:
+        return False
+    syms = subprocess.run(["strings", outs[0]], capture_output=True, text=True).stdout.splitlines()
+    args = []
+    for frag, k in wanted:
+        ids = sorted({s.lstrip("%\'") for s in syms if frag in s and re.fullmatch(r"[%']?_R[A-Za-z0-9_]+", s)
+                      and "NC" not in s and "::" not in s})
+        if not ids:
+            return False
+        for i in ids:
+            args.append(f"{i}:{k}")
+    job.cbmc_args = list(job.cbmc_args) + ["--unwindset", ",".join(args)]
+    job.bound = dict(job.bound, recursion_unwindset=[f"{f}:{k}" for f, k in wanted])
+    return True
+
+
 def run_job(job, keep_target=False):
     td = os.path.join(WORK, "t", job.jid)
     logdir = ensure_dir(os.path.join(WORK, "logs"))
     log = os.path.join(logdir, job.jid + ".log")
     if os.path.exists(td):
         shutil.rmtree(td, ignore_errors=True)
+    if not resolve_unwindset(job, td):
+        res = Result(job=job, status="undecided", reason="could not resolve the goto identifiers for the per-rule recursion bound")
+        res.log = log
+        return res
     rc, wall, peak = run_cmd_limited(kani_cmd(job, td), job.crate, log, job.timeout, job.mem_gb)
     text = open(log, errors="replace").read()
     res = classify(job, rc, text)
